@@ -24,8 +24,25 @@ def rand_pair(rng, sr, sym, cplx, maxnd=4):
     for i, j in zip(axa, axb):
         cmb[j] = dict(cma[i])
         dub[j] = not dua[i]
-    a = gen.rand_array(rng, sr, sym, chargemaps=cma, duals=dua, cplx=cplx, lo=-2, hi=2)
-    b = gen.rand_array(rng, sr, sym, chargemaps=cmb, duals=dub, cplx=cplx, lo=-2, hi=2)
+    keep = None
+    if ncon >= 2 and rng.random() < 0.6:
+        # several contracted charge tuples per free sector: block pairs accumulate into one result block
+        for i, j in zip(axa, axb):
+            cm = gen.rand_chargemap(rng, sym, maxcharges=3, maxsize=2)
+            while len(cm) < 2:
+                cm = gen.rand_chargemap(rng, sym, maxcharges=3, maxsize=2)
+            cma[i] = cm; cmb[j] = dict(cm)
+        keep = rng.choice([1.0, 1.0, ('drop', 1), 0.8])
+    a = gen.rand_array(rng, sr, sym, chargemaps=cma, duals=dua, cplx=cplx, lo=-2, hi=2, keep=keep, maxsize=2)
+    qb = None
+    if a.blocks and rng.random() < 0.8:
+        # total charge of b chosen so that at least one of its valid sectors aligns with a stored sector of a
+        sa = rng.choice(list(a.blocks))
+        sb = [rng.choice(sorted(cm)) for cm in cmb]
+        for i, j in zip(axa, axb):
+            sb[j] = sa[i]
+        qb = refsym.csum(sym, [refsym.signed(sym, c, d) for c, d in zip(sb, dub)])
+    b = gen.rand_array(rng, sr, sym, chargemaps=cmb, duals=dub, charge=qb, cplx=cplx, lo=-2, hi=2, keep=keep, maxsize=2)
     return a, b, axa, axb
 
 
